@@ -70,13 +70,15 @@ def make_request(kind, rid):
     return req, [bytes(f.serialize()[7:]) for f in frs], timeout
 
 
-def response_bytes(kind, seq=0):
+def response_bytes(kind, seq=0, tsn=None):
     import wire_common as W
     path = KINDS[kind][0]
     helper = get_cls(path)
     rng = random.Random(77)
     kw = W.gen_assignment(rng, helper.Rsp)
     kw["StatusCode"] = type(kw["StatusCode"])(0)
+    if tsn is not None:
+        kw["TSN"] = type(kw["TSN"])(tsn % 256)      # numbers the responses: which one a caller got is observable
     cmd = helper.Rsp(**kw)
     body = bytes(cmd.to_frame().hl_packet.data)
     return build_frame_bytes(int(helper.Rsp.header), body, 0xC0 | (seq << 2))
@@ -173,7 +175,7 @@ class Runner:
                     e = t.exception()
                     if e is None:
                         r = t.result()
-                        oc = "NONE" if r is None else "R:" + type(r).__qualname__
+                        oc = "NONE" if r is None else "R:%s:%s" % (type(r).__qualname__, int(getattr(r, "TSN", -1)))
                     elif isinstance(e, asyncio.TimeoutError):
                         oc = "TIMEOUT"
                     elif isinstance(e, RuntimeError):
@@ -208,16 +210,18 @@ class Runner:
             fr = Frame(ll, hl)
             self.sends[tag] = (loop.create_task(proto.send(fr)), bytes(fr.serialize()[7:]))
         elif k == "ack":
-            proto.data_received(build_frame_bytes(None, b"", 1 | (ev[1] << 4)))
+            loop.call_soon(proto.data_received, build_frame_bytes(None, b"", 1 | (ev[1] << 4)))
         elif k == "rsp":
             self.rx_seq = self.rx_seq % 3 + 1
-            proto.data_received(response_bytes(ev[1], self.rx_seq))
+            self.rsp_count = getattr(self, "rsp_count", 0) + 1
+            loop.call_soon(proto.data_received, response_bytes(ev[1], self.rx_seq, self.rsp_count))
         elif k == "rsp2":
             # two response frames in ONE read chunk (one data_received call)
             self.rx_seq = self.rx_seq % 3 + 1
-            b1 = response_bytes(ev[1], self.rx_seq)
+            self.rsp_count = getattr(self, "rsp_count", 0) + 2
+            b1 = response_bytes(ev[1], self.rx_seq, self.rsp_count - 1)
             self.rx_seq = self.rx_seq % 3 + 1
-            proto.data_received(b1 + response_bytes(ev[2], self.rx_seq))
+            loop.call_soon(proto.data_received, b1 + response_bytes(ev[2], self.rx_seq, self.rsp_count))
         elif k == "listen":
             # the application registers a callback for the response command of `kind` (any field values): legal, and it
             # must not change what the waiting requests get
@@ -230,7 +234,9 @@ class Runner:
             self.n_callback_listeners = getattr(self, "n_callback_listeners", 0) + 1
         elif k == "data":
             self.rx_seq = self.rx_seq % 3 + 1
-            proto.data_received(build_frame_bytes(0x00020600, b"\x01\x02", 0xC0 | (self.rx_seq << 2)))
+            # optional ev[1]: the ACK-number bits of the data frame (meaningless on a data frame: only isACK frames acknowledge)
+            ab = (ev[1] & 3) << 4 if len(ev) > 1 else 0
+            loop.call_soon(proto.data_received, build_frame_bytes(0x00020600, b"\x01\x02", 0xC0 | (self.rx_seq << 2) | ab))
         elif k == "tick":
             loop.advance(ev[1] / 1000.0)
         elif k == "cancel":
@@ -242,18 +248,19 @@ class Runner:
             if t is not None:
                 t[0].cancel()
         elif k == "uclose":
-            proto.close()
+            loop.call_soon(proto.close)
         elif k == "rflag":
             # the library's own "a reset is in progress" mark on the protocol object (public setter; ZBOSS.reset() sets
             # it): transmission discipline does not depend on it
             proto.reset_flag = True
         elif k == "close":
-            api.close()
+            loop.call_soon(api.close)
         elif k == "lost":
+            # as the transport does it: from inside the event loop
             if api._uart is not None:
-                api._uart.connection_lost(None)
+                loop.call_soon(api._uart.connection_lost, None)
             else:
-                proto.connection_lost(None)
+                loop.call_soon(proto.connection_lost, None)
         elif k == "reset_begin":
             async def hold():
                 async with api._reset_uart_reconnect:
